@@ -295,7 +295,10 @@ func (t *Table) get(offset uint64) storage.Entry {
 
 	vlen := binary.BigEndian.Uint32(t.memory[offset : offset+4])
 	offset += 4
-	e.SetValue(t.memory[offset : offset+uint64(vlen)])
+	// The entry owns its value. The table's memory is reused when the table is recycled.
+	value := make([]byte, vlen)
+	copy(value, t.memory[offset:offset+uint64(vlen)])
+	e.SetValue(value)
 	return e
 }
 
@@ -336,7 +339,10 @@ func (t *Table) Get(hkey uint64) (storage.Entry, error) {
 
 	vlen := binary.BigEndian.Uint32(t.memory[offset : offset+4])
 	offset += 4
-	e.SetValue(t.memory[offset : offset+uint64(vlen)])
+	// The entry owns its value. The table's memory is reused when the table is recycled.
+	value := make([]byte, vlen)
+	copy(value, t.memory[offset:offset+uint64(vlen)])
+	e.SetValue(value)
 
 	return e, nil
 }
